@@ -8,8 +8,10 @@
 package verifrt
 
 import (
+	"crypto"
 	"encoding/json"
 	"fmt"
+	"hash"
 	"os"
 )
 
@@ -163,3 +165,50 @@ func MergeBool(f func() bool) bool { return f() }
 func MergeInt(f func() int) int    { return f() }
 
 func Log(args ...any) {}
+
+// ---------- recording hash (uninterpreted-function stub for SHA-1/SHA-256) ----------
+
+// RecHash implements hash.Hash by recording everything written to it; Sum
+// returns HashUF(log), an uninterpreted function of the log. Harnesses
+// register it in place of the real digests and can read Log to assert what
+// exactly was hashed.
+type RecHash struct {
+	Log []byte
+	N   int
+}
+
+func NewRecHash(n int) *RecHash { return &RecHash{N: n} }
+
+func (h *RecHash) Write(p []byte) (int, error) {
+	h.Log = append(h.Log, p...)
+	return len(p), nil
+}
+func (h *RecHash) Sum(b []byte) []byte { return append(b, HashUF(h.Log, h.N)...) }
+func (h *RecHash) Reset()              { h.Log = nil }
+func (h *RecHash) Size() int           { return h.N }
+func (h *RecHash) BlockSize() int      { return 64 }
+
+// HashUF is an uninterpreted function from byte strings to n bytes. Natively
+// (replay) its successive results are read from the replay vector, exactly as
+// the engine allocated them; the engine constrains results of equal logs to be
+// equal and (collision resistance, an assumption) of different logs to differ.
+func HashUF(log []byte, n int) []byte {
+	out := make([]byte, n)
+	for i := range out {
+		out[i] = NondetByte()
+	}
+	return out
+}
+
+// InstallRecHashes replaces the process-wide SHA-1 and SHA-256 constructors of
+// the crypto registry with recording hashes.
+func InstallRecHashes() {
+	crypto.RegisterHash(crypto.SHA1, func() hash.Hash { return NewRecHash(20) })
+	crypto.RegisterHash(crypto.SHA256, func() hash.Hash { return NewRecHash(32) })
+}
+
+// AnyInt is an over-approximating stub result: under the engine a fresh
+// unconstrained value that is not recorded in the replay vector; natively 0.
+// Harnesses use it only through overlay replacements of functions whose
+// result must not matter (and the native replay runs the real function).
+func AnyInt() int { return 0 }
